@@ -110,9 +110,14 @@ class SoftwareManager:
         """
         Install an Application or Service.
 
+        Installing a class that is already installed, without a configuration, is refused. Installing software whose
+        name is already installed together with a configuration (for example system software that a scenario file
+        lists again with its options) replaces the installed instance: it is uninstalled first, so that the node
+        never holds two instances under one name.
+
         :param software_class: The software class.
         """
-        if software_class in self._software_class_to_name_map:
+        if software_class in self._software_class_to_name_map and software_config is None:
             self.sys_log.warning(f"Cannot install {software_class} as it is already installed")
             return
         if software_config is None:
@@ -131,6 +136,9 @@ class SoftwareManager:
                 config=software_config,
             )
 
+        if software.name in self.software:
+            self.sys_log.warning(f"{software.name} is already installed, replacing it with the new instance")
+            self.uninstall(software.name)
         software.parent = self.node
         if isinstance(software, Application):
             self.node.applications[software.uuid] = software
@@ -144,6 +152,7 @@ class SoftwareManager:
         software.install()
         software.software_manager = self
         self.software[software.name] = software
+        self._software_class_to_name_map[software_class] = software.name
         self.port_protocol_mapping[(software.port, software.protocol)] = software
         if isinstance(software, Application):
             software.operating_state = ApplicationOperatingState.CLOSED
